@@ -164,8 +164,11 @@ def scan (mc : MonCfg) (m : MSt) : List Ev → Option Clause
 
 def mon (mc : MonCfg) (tr : List Ev) : Option Clause := scan mc {} tr
 
-/-- End of the case (every handler was released, the harness waited): every call that was issued has returned. -/
+/-- End of the case (every handler was released, the harness waited): every call that was issued has returned.
+Not evaluated when the injected fault broke the transport's writer (calls in flight on a connection whose writer
+is broken are the subject of C01/C05, not of C04). -/
 def monEnd (mc : MonCfg) (tr : List Ev) : Option Clause :=
+  if mc.broken then none else
   let m := summ tr
   match (List.range mc.c.n).find? (fun i => (m.snd i).isSome && (m.ret i).isNone) with
   | some i => some (.neverReturned i)
